@@ -3,9 +3,21 @@ from inspect import signature
 
 from sklearn.utils import _param_validation as skparamvalid
 
+try:  # scikit-learn >= 1.6 exposes data validation as a function
+    from sklearn.utils.validation import validate_data as _sk_validate_data
+except ImportError:  # pragma: no cover
+    _sk_validate_data = None
+
 
 class InvalidParameterError(ValueError, TypeError):
     pass
+
+
+def _validate_data(estimator, X, **kwargs):
+    # BaseEstimator._validate_data was removed in scikit-learn 1.7 in favour of validate_data
+    if hasattr(estimator, "_validate_data"):
+        return estimator._validate_data(X, **kwargs)
+    return _sk_validate_data(estimator, X, **kwargs)
 
 
 def check_constraint(local_constraint):
